@@ -1120,3 +1120,23 @@ CASES += [
     dict(name="rename-locals-bdd-repr-ok", file=RB, rule="BB", props=ALLP, expect=None,
          rename=[("possible_best", "candidate"), ("margvar_bits", "open_vars"), ("upper_bound", "ub"), ("partialmodel", "branch")]),
 ]
+
+CASES += [
+    dict(name="cm-compress-skips-true-subs", file="src/builder/sdd/compression.rs", rule="CM", props=["C04"], expect="compress:CM2",
+         old="""                if self.eq(node[i].sub(), node[j].sub()) {""",
+         new="""                if !self.is_true(node[j].sub()) && self.eq(node[i].sub(), node[j].sub()) {"""),
+    dict(name="fs-sdd-compile-cnf-true-on-no-vars", file=SB, rule="FS", props=["C05"], expect="compile_cnf:constant-answers-justified",
+         old="""        if cnf.clauses().is_empty() {
+            return SddPtr::true_ptr();
+        }""",
+         new="""        if cnf.num_vars() == 0 {
+            return SddPtr::true_ptr();
+        }"""),
+    dict(name="fs-sdd-compile-cnf-len-zero-ok", file=SB, rule="FS", props=["C05"], expect=None,
+         old="""        if cnf.clauses().is_empty() {
+            return SddPtr::true_ptr();
+        }""",
+         new="""        if cnf.clauses().len() == 0 {
+            return SddPtr::true_ptr();
+        }"""),
+]
